@@ -122,6 +122,21 @@ def h_standard(ctx, npt, case_holder=None):
         g = tab_lin.gradient(x, ax)
         want = [c for c, s in zip(coefs.tolist(), subsets) if s == (ax,)][0]
         ctx.check("gradient-exact-for-linear", lift(g[0, 0]) == lift(want), case)
+    # several functions in one table (dim = 2): each row interpolates its own function
+    if d <= 2:
+        coefs2 = ctx.reals("cc", 2 ** d, -2, 2)
+        f2, _ = _multilinear(coefs2.tolist(), d)
+
+        def both_f(*a):
+            return np.array([f(*a), f2(*a)], dtype=object)
+
+        inputs["coefs2"] = coefs2
+        tab2 = InterpolationTable(low, high, np.array(npt), both_f, dim=2)
+        v2 = tab2.interpolate(x)
+        ctx.check("two-function-table-shape", np.shape(v2) == (2, 1), case)
+        if np.shape(v2) == (2, 1):
+            ctx.check("two-function-table-exact", z3.And(lift(v2[0, 0]) == lift(exact),
+                                                         lift(v2[1, 0]) == lift(f2(*[x[i, 0] for i in range(d)]))), case)
     # two query points at once agree with one at a time
     t2 = ctx.reals("u", d, 0, 1)
     x2 = (low + t2 * width).reshape((-1, 1))
@@ -261,6 +276,15 @@ def _replay(case):
             g = tl.gradient(x, ax)[0, 0]
             if abs(g - want) > 1e-7 * (1 + abs(want)):
                 return True, f"gradient along axis {ax} = {g}, exact {want}"
+        if case.get("coefs2") is not None:
+            c2 = [float(v_) for v_ in case["coefs2"]]
+            f2, _ = _multilinear(c2, d)
+            t2 = InterpolationTable(low, high, np.array(npt), lambda *a: np.array([f(*a), f2(*a)]), dim=2)
+            v2 = t2.interpolate(x)
+            e2 = f2(*[x[i, 0] for i in range(d)])
+            if np.shape(v2) != (2, 1) or abs(v2[0, 0] - exact) > 1e-8 * (1 + abs(exact)) or abs(v2[1, 0] - e2) > 1e-8 * (1 + abs(e2)):
+                return True, (f"two-function table: interpolate({x.ravel().tolist()}) = {np.asarray(v2).ravel().tolist()}, "
+                              f"function values {[exact, e2]}")
         return False, "exact"
     d = case["d"]
     dx = np.array([0.5, 0.25][:d])
